@@ -2,7 +2,12 @@
 """Independent confirmation that a seeded change compiles and that the repository's tests of
 the affected area still pass with it: applies each seeded/<ID>-m<k>/patch.diff in the scratch
 worktree /tmp/confirm (own build dir with ALL test executables), rebuilds, runs ctest on the
-area's tests, reverts.  Results -> seeded/TESTS.json.  Never touches /repo."""
+area's tests, reverts.  Results -> seeded/TESTS.json.  Never touches /repo.
+The scratch worktree is created by hand (and removed afterwards):
+  git -C /repo worktree add --detach /tmp/confirm HEAD
+  cmake -S /tmp/confirm -B /tmp/confirm/_build -G Ninja -DCMAKE_BUILD_TYPE=Release -DCELERITAS_BUILD_TESTS=ON \
+    -DCELERITAS_USE_MPI=OFF -DCELERITAS_USE_OpenMP=ON -DCMAKE_CXX_FLAGS=-Wno-error -DCMAKE_PREFIX_PATH=/root/miniconda
+  ninja -C /tmp/confirm/_build ;  ... ;  git -C /repo worktree remove --force /tmp/confirm"""
 import json
 import os
 import re
